@@ -261,6 +261,15 @@ def design_level(chk):
         chk.violation("C04:design:%s" % res.violated,
                       "as-coded controller model violates %s" % res.violated,
                       {"cfg": cfg}, "\n".join(h + "\n" + b for h, b in res.error_trace()))
+    # liveness of the as-coded model: a started step ends (weak fairness, no state constraint)
+    live = tlc.run_tlc("Controller", cfg="ControllerLive", timeout=3000)
+    chk.add_tlc(live)
+    if live.violated:
+        chk.violation("C04:design-liveness:%s" % live.violated,
+                      "as-coded controller model violates a liveness property (%s)" % live.violated,
+                      {"cfg": "ControllerLive"}, "\n".join(h + "\n" + b for h, b in live.error_trace()))
+    if not live.completed:
+        raise tlc.MachineryError("ControllerLive did not complete")
     return res
 
 
